@@ -3,7 +3,8 @@
    checks/c18.py), proofs are in Proofs/DataProofs.v.  Every theorem is followed by Print Assumptions. *)
 From Coq Require Import List Bool Arith ZArith QArith Qround Permutation Sorted.
 Import ListNotations.
-From SG Require Import State.Data Proofs.DataProofs Proofs.DataFloat.
+From SG Require Import State.Data Proofs.DataProofs Proofs.DataFloat Gen.GenDataSigs.
+From Coq Require String.
 From Coq Require Reals.
 Local Open Scope nat_scope.
 
@@ -95,6 +96,23 @@ Theorem split_order_without_shuffle :
 Proof. intros A B. exact (@split_noshuffle_order A B). Qed.
 Goal True. idtac "ASSUMPTIONS split_order_without_shuffle". Abort.
 Print Assumptions split_order_without_shuffle.
+
+(* every falsy form of the shuffle argument (False, np.bool_(False), 0) is the no-shuffle branch, whatever the generator
+   would have produced; every truthy form uses the permutation *)
+Theorem split_shuffle_argument_forms :
+  forall (A B : Type) (X : list A) (y : list B) kt kv perm,
+  split_dataset_a X y kt kv (SBool false) perm = split_dataset X y kt kv None /\
+  split_dataset_a X y kt kv (SNpBool false) perm = split_dataset X y kt kv None /\
+  split_dataset_a X y kt kv (SInt 0) perm = split_dataset X y kt kv None /\
+  split_dataset_a X y kt kv (SBool true) perm = split_dataset X y kt kv (Some perm) /\
+  split_dataset_a X y kt kv (SNpBool true) perm = split_dataset X y kt kv (Some perm) /\
+  (forall z, z <> 0%Z -> split_dataset_a X y kt kv (SInt z) perm = split_dataset X y kt kv (Some perm)).
+Proof.
+  intros. unfold split_dataset_a. simpl. repeat split.
+  intros z Hz. destruct (Z.eqb_spec z 0); [contradiction|reflexivity].
+Qed.
+Goal True. idtac "ASSUMPTIONS split_shuffle_argument_forms". Abort.
+Print Assumptions split_shuffle_argument_forms.
 
 (* non-vacuity: n = 7, shuffled, test 2, validation 2 *)
 Example split_example_run :
@@ -275,3 +293,30 @@ Proof. vm_compute. split; reflexivity. Qed.
 Example one_hot_example :
   one_hot [3; -1; 3; 7; -1]%Z = Some [[0;1;0]; [1;0;0]; [0;1;0]; [0;0;1]; [1;0;0]].
 Proof. vm_compute. reflexivity. Qed.
+
+(* ---- the public entry points are the documented ones ---------------------------------------------------
+   Generated from data.py on every run (lib/py2coq/gen_sigs.py -> Gen/GenDataSigs.v): parameter names, ORDER (a positional
+   call binds by position: DataLoader(X, y, batch_size, transform)), defaults, and the attributes that make up a DataLoader's
+   state (the model's loader record + cursor).  A changed signature or a new state attribute breaks this obligation. *)
+Import String.
+Local Open Scope string_scope.
+Theorem data_signatures_documented :
+  data_signatures =
+ [
+  ("split_dataset", [("X", "pos", ""); ("y", "pos", ""); ("test_split", "pos", "0.2"); ("val_split", "pos", "None"); ("shuffle", "pos", "False")]);
+  ("one_hot_encode", [("y", "pos", "")]);
+  ("DataLoaderCallback.__call__", [("self", "pos", ""); ("data_loader", "pos", ""); ("X_batch", "pos", ""); ("y_batch", "pos", "")]);
+  ("DataLoader.__init__", [("self", "pos", ""); ("X", "pos", ""); ("y", "pos", ""); ("batch_size", "pos", ""); ("transform", "pos", "None")]);
+  ("DataLoader.__len__", [("self", "pos", "")]);
+  ("DataLoader.__iter__", [("self", "pos", "")]);
+  ("DataLoader.__next__", [("self", "pos", "")]);
+  ("DataLoader.__getitem__", [("self", "pos", ""); ("idx", "pos", "")])
+ ]
+  /\ data_state =
+ [
+  ("DataLoaderCallback", []);
+  ("DataLoader", ["X"; "y"; "batach_size"; "step"; "transform"])
+ ].
+Proof. split; reflexivity. Qed.
+Goal True. idtac "ASSUMPTIONS data_signatures_documented". Abort.
+Print Assumptions data_signatures_documented.
